@@ -1,4 +1,508 @@
+//! C07 — typed path, query and body extraction delivers exact values or stops the handler.
+//!
+//! Scenario (vocabulary of specs/Extract.tla):
+//!   {"fam", "route":["S"|"P"..], "mount":k, "style":"none"|"bare"|"tuple", "ptys":[param types], "items":[{"x","opt","ty"}..],
+//!    "segs":[[segment tokens]..] (one per "P" of the route), "rq":{"q","ct":{"mime","var"},"body":{"fmt","pl"},"auth","mf","ck"}, "seed"}
+//! The handler signature is looked up in a compiled catalogue (`catalogue!` below, mirror of ParamSigs / ItemSigs of the spec), the
+//! application is assembled through `ohkami::__verif` (flat, or split over a nested `By` mount), the request is written as raw bytes
+//! (concretisation tables below, representative chosen by the seed) and goes through the real `Request::read`, the real router and
+//! the real `Response::send`.  The handler records the typed values it received in a thread-local log; the observation is that log
+//! projected back onto the abstract vocabulary, plus the status.  Nothing is judged here: specs/Trace_Extract.tla decides.
+use crate::util::{self, arr, s, Rng};
+use ohkami::__verif as v;
+use ohkami::format::{Multipart, Query, Text, URLEncoded, JSON};
+use ohkami::handler::IntoHandler;
+use ohkami::prelude::*;
+use ohkami::typed::header as th;
+use ohkami::{FromParam, FromRequest};
 use serde_json::{json, Value};
-pub fn run(_scn: &Value) -> Value { json!({"kind": "unimplemented"}) }
-#[allow(dead_code)]
-pub fn gen(_rng: &mut crate::util::Rng, i: usize) -> Value { json!({"id": i}) }
+use std::borrow::Cow;
+use std::cell::RefCell;
+
+// ------------------------------------------------------------------------------------------------ what a handler received
+#[derive(Clone, Debug, PartialEq)]
+pub enum Got { Int(String), Str(String), AN(String, u32), AS(String, String), AO(String, Option<u32>), Text(String), Hdr(String), Num(u32), Absent, Present(Box<Got>) }
+thread_local! { static LOG: RefCell<Vec<Vec<Got>>> = const { RefCell::new(Vec::new()) }; }
+fn record(g: Vec<Got>) { LOG.with(|l| l.borrow_mut().push(g)) }
+
+#[derive(Deserialize, ohkami::openapi::Schema)] pub struct AN { a: String, n: u32 }
+#[derive(Deserialize, ohkami::openapi::Schema)] pub struct AO { a: String, n: Option<u32> }
+#[derive(Deserialize, ohkami::openapi::Schema)] pub struct AS { a: String, n: String }
+/// a fallible typed header value of the harness (std `u32::from_str`), so that "present but invalid" exists for headers
+pub struct HNum(u32);
+impl ohkami::openapi::Schema for HNum { fn schema() -> impl Into<ohkami::openapi::schema::SchemaRef> { ohkami::openapi::integer() } }
+impl<'r> th::FromHeader<'r> for HNum {
+    type Error = Response;
+    fn from_header(raw: &'r str) -> Result<Self, Response> { raw.parse::<u32>().map(HNum).map_err(|_| Response::BadRequest()) }
+}
+
+pub trait EchoP: FromParam<'static> + Send + 'static { fn echo(&self) -> Got; }
+macro_rules! echo_int { ($($t:ty),*) => { $( impl EchoP for $t { fn echo(&self) -> Got { Got::Int(self.to_string()) } } )* } }
+echo_int!(u8, u16, u32, u64, usize, i8, i16, i32, i64, isize);
+impl EchoP for String { fn echo(&self) -> Got { Got::Str(self.clone()) } }
+impl EchoP for &'static str { fn echo(&self) -> Got { Got::Str(self.to_string()) } }
+impl EchoP for Cow<'static, str> { fn echo(&self) -> Got { Got::Str(self.to_string()) } }
+
+pub trait Canon { fn canon(&self) -> Got; }
+impl Canon for AN { fn canon(&self) -> Got { Got::AN(self.a.clone(), self.n) } }
+impl Canon for AS { fn canon(&self) -> Got { Got::AS(self.a.clone(), self.n.clone()) } }
+impl Canon for AO { fn canon(&self) -> Got { Got::AO(self.a.clone(), self.n) } }
+pub trait EchoI: FromRequest<'static> + Send + 'static { fn echo(&self) -> Got; }
+impl<T: Canon + ohkami::openapi::Schema + Send + 'static> EchoI for Query<T> where Query<T>: FromRequest<'static> { fn echo(&self) -> Got { self.0.canon() } }
+impl<T: Canon + ohkami::openapi::Schema + Send + 'static> EchoI for JSON<T> where JSON<T>: FromRequest<'static> { fn echo(&self) -> Got { self.0.canon() } }
+impl<T: Canon + ohkami::openapi::Schema + Send + 'static> EchoI for URLEncoded<T> where URLEncoded<T>: FromRequest<'static> { fn echo(&self) -> Got { self.0.canon() } }
+impl<T: Canon + ohkami::openapi::Schema + Send + 'static> EchoI for Multipart<T> where Multipart<T>: FromRequest<'static> { fn echo(&self) -> Got { self.0.canon() } }
+impl<T: Canon + ohkami::openapi::Schema + Send + 'static> EchoI for th::Cookie<T> where th::Cookie<T>: FromRequest<'static> { fn echo(&self) -> Got { self.0.canon() } }
+impl EchoI for Text<String> { fn echo(&self) -> Got { Got::Text(self.0.clone()) } }
+impl EchoI for th::Authorization<String> { fn echo(&self) -> Got { Got::Hdr(self.0.clone()) } }
+impl EchoI for th::MaxForwards<HNum> { fn echo(&self) -> Got { Got::Num((self.0).0) } }
+impl<I: EchoI> EchoI for Option<I> where Option<I>: FromRequest<'static> {
+    fn echo(&self) -> Got { match self { None => Got::Absent, Some(i) => Got::Present(Box::new(i.echo())) } }
+}
+
+// ------------------------------------------------------------------------------------------------ handler shapes (one per IntoHandler impl)
+fn reg<T, H: IntoHandler<T>>(hs: v::HandlerSet, m: &str, h: H) -> v::HandlerSet {
+    match m { "POST" => hs.POST(h), "PUT" => hs.PUT(h), "PATCH" => hs.PATCH(h), "DELETE" => hs.DELETE(h), _ => hs.GET(h) }
+}
+macro_rules! hfn {
+    ($name:ident <$($G:ident : $B:ident),*> marker($m:ty) args($($a:pat => $t:ty),*) echo($($e:expr),*)) => {
+        fn $name<$($G: $B),*>(hs: v::HandlerSet, m: &str) -> v::HandlerSet {
+            reg::<$m, _>(hs, m, |$($a: $t),*| async move { record(vec![$($e),*]); String::from("ran") })
+        }
+    };
+}
+hfn!(h_n_i0<> marker(fn() -> String) args() echo());
+hfn!(h_n_i1<I1: EchoI> marker(fn(I1) -> String) args(i1 => I1) echo(i1.echo()));
+hfn!(h_n_i2<I1: EchoI, I2: EchoI> marker(fn(I1, I2) -> String) args(i1 => I1, i2 => I2) echo(i1.echo(), i2.echo()));
+hfn!(h_n_i3<I1: EchoI, I2: EchoI, I3: EchoI> marker(fn(I1, I2, I3) -> String) args(i1 => I1, i2 => I2, i3 => I3) echo(i1.echo(), i2.echo(), i3.echo()));
+hfn!(h_n_i4<I1: EchoI, I2: EchoI, I3: EchoI, I4: EchoI> marker(fn(I1, I2, I3, I4) -> String) args(i1 => I1, i2 => I2, i3 => I3, i4 => I4) echo(i1.echo(), i2.echo(), i3.echo(), i4.echo()));
+hfn!(h_b_i0<P: EchoP> marker(fn((P,)) -> String) args(p => P) echo(p.echo()));
+hfn!(h_b_i1<P: EchoP, I1: EchoI> marker(fn(((P,),), I1) -> String) args(p => P, i1 => I1) echo(p.echo(), i1.echo()));
+hfn!(h_b_i2<P: EchoP, I1: EchoI, I2: EchoI> marker(fn(((P,),), I1, I2) -> String) args(p => P, i1 => I1, i2 => I2) echo(p.echo(), i1.echo(), i2.echo()));
+hfn!(h_b_i3<P: EchoP, I1: EchoI, I2: EchoI, I3: EchoI> marker(fn(((P,),), I1, I2, I3) -> String) args(p => P, i1 => I1, i2 => I2, i3 => I3) echo(p.echo(), i1.echo(), i2.echo(), i3.echo()));
+hfn!(h_b_i4<P: EchoP, I1: EchoI, I2: EchoI, I3: EchoI, I4: EchoI> marker(fn(((P,),), I1, I2, I3, I4) -> String) args(p => P, i1 => I1, i2 => I2, i3 => I3, i4 => I4) echo(p.echo(), i1.echo(), i2.echo(), i3.echo(), i4.echo()));
+hfn!(h_t1_i0<P: EchoP> marker(fn(((P,),)) -> String) args((p,) => (P,)) echo(p.echo()));
+hfn!(h_t1_i1<P: EchoP, I1: EchoI> marker(fn((P,), I1) -> String) args((p,) => (P,), i1 => I1) echo(p.echo(), i1.echo()));
+hfn!(h_t1_i2<P: EchoP, I1: EchoI, I2: EchoI> marker(fn((P,), I1, I2) -> String) args((p,) => (P,), i1 => I1, i2 => I2) echo(p.echo(), i1.echo(), i2.echo()));
+hfn!(h_t1_i3<P: EchoP, I1: EchoI, I2: EchoI, I3: EchoI> marker(fn((P,), I1, I2, I3) -> String) args((p,) => (P,), i1 => I1, i2 => I2, i3 => I3) echo(p.echo(), i1.echo(), i2.echo(), i3.echo()));
+hfn!(h_t1_i4<P: EchoP, I1: EchoI, I2: EchoI, I3: EchoI, I4: EchoI> marker(fn((P,), I1, I2, I3, I4) -> String) args((p,) => (P,), i1 => I1, i2 => I2, i3 => I3, i4 => I4) echo(p.echo(), i1.echo(), i2.echo(), i3.echo(), i4.echo()));
+hfn!(h_t2_i0<P: EchoP, R: EchoP> marker(fn(((P, R),)) -> String) args((p, r) => (P, R)) echo(p.echo(), r.echo()));
+hfn!(h_t2_i1<P: EchoP, R: EchoP, I1: EchoI> marker(fn((P, R), I1) -> String) args((p, r) => (P, R), i1 => I1) echo(p.echo(), r.echo(), i1.echo()));
+hfn!(h_t2_i2<P: EchoP, R: EchoP, I1: EchoI, I2: EchoI> marker(fn((P, R), I1, I2) -> String) args((p, r) => (P, R), i1 => I1, i2 => I2) echo(p.echo(), r.echo(), i1.echo(), i2.echo()));
+hfn!(h_t2_i3<P: EchoP, R: EchoP, I1: EchoI, I2: EchoI, I3: EchoI> marker(fn((P, R), I1, I2, I3) -> String) args((p, r) => (P, R), i1 => I1, i2 => I2, i3 => I3) echo(p.echo(), r.echo(), i1.echo(), i2.echo(), i3.echo()));
+hfn!(h_t2_i4<P: EchoP, R: EchoP, I1: EchoI, I2: EchoI, I3: EchoI, I4: EchoI> marker(fn((P, R), I1, I2, I3, I4) -> String) args((p, r) => (P, R), i1 => I1, i2 => I2, i3 => I3, i4 => I4) echo(p.echo(), r.echo(), i1.echo(), i2.echo(), i3.echo(), i4.echo()));
+
+// ------------------------------------------------------------------------------------------------ the catalogue (mirror of Extract.tla ParamSigs \cup ItemSigs)
+macro_rules! catalogue {
+    ($( $tag:literal => $f:ident :: < $($t:ty),* > ; )*) => {
+        pub const TAGS: &[&str] = &[$($tag),*];
+        fn build(tag: &str, hs: v::HandlerSet, m: &str) -> Option<v::HandlerSet> {
+            Some(match tag { $( $tag => $f::<$($t),*>(hs, m), )* _ => return None })
+        }
+    };
+}
+catalogue! {
+    "none()" => h_n_i0::<>;
+    "bare(u8)" => h_b_i0::<u8>;
+    "bare(u16)" => h_b_i0::<u16>;
+    "bare(u32)" => h_b_i0::<u32>;
+    "bare(u64)" => h_b_i0::<u64>;
+    "bare(usize)" => h_b_i0::<usize>;
+    "bare(i8)" => h_b_i0::<i8>;
+    "bare(i16)" => h_b_i0::<i16>;
+    "bare(i32)" => h_b_i0::<i32>;
+    "bare(i64)" => h_b_i0::<i64>;
+    "bare(isize)" => h_b_i0::<isize>;
+    "bare(String)" => h_b_i0::<String>;
+    "bare(Cow)" => h_b_i0::<Cow<'static, str>>;
+    "bare(str)" => h_b_i0::<&'static str>;
+    "tuple(u8)" => h_t1_i0::<u8>;
+    "tuple(u16)" => h_t1_i0::<u16>;
+    "tuple(u32)" => h_t1_i0::<u32>;
+    "tuple(u64)" => h_t1_i0::<u64>;
+    "tuple(usize)" => h_t1_i0::<usize>;
+    "tuple(i8)" => h_t1_i0::<i8>;
+    "tuple(i16)" => h_t1_i0::<i16>;
+    "tuple(i32)" => h_t1_i0::<i32>;
+    "tuple(i64)" => h_t1_i0::<i64>;
+    "tuple(isize)" => h_t1_i0::<isize>;
+    "tuple(String)" => h_t1_i0::<String>;
+    "tuple(Cow)" => h_t1_i0::<Cow<'static, str>>;
+    "tuple(str)" => h_t1_i0::<&'static str>;
+    "tuple(String,String)" => h_t2_i0::<String, String>;
+    "tuple(String,u32)" => h_t2_i0::<String, u32>;
+    "tuple(u32,String)" => h_t2_i0::<u32, String>;
+    "tuple(str,u64)" => h_t2_i0::<&'static str, u64>;
+    "tuple(Cow,i64)" => h_t2_i0::<Cow<'static, str>, i64>;
+    "tuple(i8,u8)" => h_t2_i0::<i8, u8>;
+    "tuple(u16,i16)" => h_t2_i0::<u16, i16>;
+    "tuple(i32,str)" => h_t2_i0::<i32, &'static str>;
+    "tuple(usize,isize)" => h_t2_i0::<usize, isize>;
+    "tuple(u64,Cow)" => h_t2_i0::<u64, Cow<'static, str>>;
+    "tuple(isize,usize)" => h_t2_i0::<isize, usize>;
+    "tuple(i64,i32)" => h_t2_i0::<i64, i32>;
+    "tuple(u8,i8)" => h_t2_i0::<u8, i8>;
+    "tuple(i16,u16)" => h_t2_i0::<i16, u16>;
+    "none()|Query<AN>" => h_n_i1::<Query<AN>>;
+    "none()|?Query<AN>" => h_n_i1::<Option<Query<AN>>>;
+    "none()|Query<AO>" => h_n_i1::<Query<AO>>;
+    "none()|JSON<AN>" => h_n_i1::<JSON<AN>>;
+    "none()|?JSON<AN>" => h_n_i1::<Option<JSON<AN>>>;
+    "none()|JSON<AO>" => h_n_i1::<JSON<AO>>;
+    "none()|?JSON<AO>" => h_n_i1::<Option<JSON<AO>>>;
+    "none()|URLEncoded<AN>" => h_n_i1::<URLEncoded<AN>>;
+    "none()|?URLEncoded<AN>" => h_n_i1::<Option<URLEncoded<AN>>>;
+    "none()|Multipart<AS>" => h_n_i1::<Multipart<AS>>;
+    "none()|?Multipart<AS>" => h_n_i1::<Option<Multipart<AS>>>;
+    "none()|Text<S>" => h_n_i1::<Text<String>>;
+    "none()|?Text<S>" => h_n_i1::<Option<Text<String>>>;
+    "none()|Auth<S>" => h_n_i1::<th::Authorization<String>>;
+    "none()|?Auth<S>" => h_n_i1::<Option<th::Authorization<String>>>;
+    "none()|MaxFwd<N>" => h_n_i1::<th::MaxForwards<HNum>>;
+    "none()|?MaxFwd<N>" => h_n_i1::<Option<th::MaxForwards<HNum>>>;
+    "none()|Cookie<AN>" => h_n_i1::<th::Cookie<AN>>;
+    "none()|?Cookie<AN>" => h_n_i1::<Option<th::Cookie<AN>>>;
+    "none()|Query<AN>|JSON<AN>" => h_n_i2::<Query<AN>, JSON<AN>>;
+    "none()|?Query<AN>|?JSON<AN>" => h_n_i2::<Option<Query<AN>>, Option<JSON<AN>>>;
+    "none()|Query<AN>|?Text<S>" => h_n_i2::<Query<AN>, Option<Text<String>>>;
+    "none()|Auth<S>|JSON<AN>" => h_n_i2::<th::Authorization<String>, JSON<AN>>;
+    "none()|?Auth<S>|?Cookie<AN>" => h_n_i2::<Option<th::Authorization<String>>, Option<th::Cookie<AN>>>;
+    "none()|Cookie<AN>|URLEncoded<AN>" => h_n_i2::<th::Cookie<AN>, URLEncoded<AN>>;
+    "none()|?JSON<AN>|?Text<S>" => h_n_i2::<Option<JSON<AN>>, Option<Text<String>>>;
+    "none()|MaxFwd<N>|?Multipart<AS>" => h_n_i2::<th::MaxForwards<HNum>, Option<Multipart<AS>>>;
+    "none()|?MaxFwd<N>|Query<AN>" => h_n_i2::<Option<th::MaxForwards<HNum>>, Query<AN>>;
+    "none()|Query<AN>|Auth<S>|JSON<AN>" => h_n_i3::<Query<AN>, th::Authorization<String>, JSON<AN>>;
+    "none()|?Query<AN>|?Auth<S>|?URLEncoded<AN>" => h_n_i3::<Option<Query<AN>>, Option<th::Authorization<String>>, Option<URLEncoded<AN>>>;
+    "none()|Query<AN>|Auth<S>|Cookie<AN>|JSON<AN>" => h_n_i4::<Query<AN>, th::Authorization<String>, th::Cookie<AN>, JSON<AN>>;
+    "none()|?Query<AN>|?MaxFwd<N>|?Cookie<AN>|?Text<S>" => h_n_i4::<Option<Query<AN>>, Option<th::MaxForwards<HNum>>, Option<th::Cookie<AN>>, Option<Text<String>>>;
+    "bare(u32)|Query<AN>" => h_b_i1::<u32, Query<AN>>;
+    "bare(String)|JSON<AN>" => h_b_i1::<String, JSON<AN>>;
+    "bare(i64)|?Query<AN>|?JSON<AN>" => h_b_i2::<i64, Option<Query<AN>>, Option<JSON<AN>>>;
+    "bare(u8)|Auth<S>|Text<S>" => h_b_i2::<u8, th::Authorization<String>, Text<String>>;
+    "bare(u16)|?Query<AN>|Auth<S>|JSON<AN>" => h_b_i3::<u16, Option<Query<AN>>, th::Authorization<String>, JSON<AN>>;
+    "bare(isize)|Query<AN>|?Auth<S>|?MaxFwd<N>|?URLEncoded<AN>" => h_b_i4::<isize, Query<AN>, Option<th::Authorization<String>>, Option<th::MaxForwards<HNum>>, Option<URLEncoded<AN>>>;
+    "tuple(u32)|Query<AN>" => h_t1_i1::<u32, Query<AN>>;
+    "tuple(u32)|Query<AN>|JSON<AN>" => h_t1_i2::<u32, Query<AN>, JSON<AN>>;
+    "tuple(String)|?JSON<AN>" => h_t1_i1::<String, Option<JSON<AN>>>;
+    "tuple(i8)|?Auth<S>|?Cookie<AN>|URLEncoded<AN>" => h_t1_i3::<i8, Option<th::Authorization<String>>, Option<th::Cookie<AN>>, URLEncoded<AN>>;
+    "tuple(str)|Query<AN>|Auth<S>|Cookie<AN>|JSON<AN>" => h_t1_i4::<&'static str, Query<AN>, th::Authorization<String>, th::Cookie<AN>, JSON<AN>>;
+    "tuple(u32,String)|Query<AN>" => h_t2_i1::<u32, String, Query<AN>>;
+    "tuple(String,i8)|JSON<AN>" => h_t2_i1::<String, i8, JSON<AN>>;
+    "tuple(u32,String)|Query<AN>|JSON<AN>" => h_t2_i2::<u32, String, Query<AN>, JSON<AN>>;
+    "tuple(String,String)|?Auth<S>|?URLEncoded<AN>" => h_t2_i2::<String, String, Option<th::Authorization<String>>, Option<URLEncoded<AN>>>;
+    "tuple(u64,u16)|?Query<AN>|MaxFwd<N>|?Text<S>" => h_t2_i3::<u64, u16, Option<Query<AN>>, th::MaxForwards<HNum>, Option<Text<String>>>;
+    "tuple(i32,Cow)|Query<AN>|Auth<S>|Cookie<AN>|?JSON<AN>" => h_t2_i4::<i32, Cow<'static, str>, Query<AN>, th::Authorization<String>, th::Cookie<AN>, Option<JSON<AN>>>;
+}
+
+fn tag_of(scn: &Value) -> String {
+    let mut t = format!("{}({})", s(&scn["style"]), arr(&scn["ptys"]).iter().map(s).collect::<Vec<_>>().join(","));
+    for it in arr(&scn["items"]) {
+        t.push('|'); if it["opt"].as_bool().unwrap_or(false) { t.push('?') }
+        t.push_str(s(&it["x"])); t.push('<'); t.push_str(s(&it["ty"])); t.push('>');
+    }
+    t
+}
+
+// ------------------------------------------------------------------------------------------------ concretisation tables (trusted base)
+const LETTERS: [char; 4] = ['a', 'x', 'q', '_'];
+const ELETTERS: [(&str, char); 3] = [("%41", 'A'), ("%5A", 'Z'), ("%4d", 'M')];
+const MBS: [(&str, char); 4] = [("%C3%BC", 'ü'), ("%E3%81%82", 'あ'), ("%F0%9F%98%80", '😀'), ("%c3%bc", 'ü')];
+const BADFF: [&str; 3] = ["%FF", "%FE", "%ff"];
+const BADC3: [&str; 3] = ["%C3", "%E3", "%F0"];
+const STATICS: [&str; 4] = ["x", "api", "t", "users"];
+
+/// decimal text of a bound literal (independent of the table in Extract.tla: computed with i128)
+fn literal(tok: &str) -> Option<String> {
+    let bits = |w: &str| -> Option<(bool, u32)> { let (sg, b) = w.split_at(1); Some((sg == "i", b.parse().ok()?)) };
+    let (kind, w) = tok.split_once(':').unwrap_or((tok, ""));
+    let max = |w: &str| bits(w).map(|(sg, b)| if sg { (1i128 << (b - 1)) - 1 } else { (1i128 << b) - 1 });
+    let min = |w: &str| bits(w).map(|(sg, b)| if sg { -(1i128 << (b - 1)) } else { 0 });
+    Some(match kind {
+        "MAX" => max(w)?, "MAX1" => max(w)? + 1, "MIN" => min(w)?, "MIN1" => min(w)? - 1,
+        "P2W1" => (1i128 << w.parse::<u32>().ok()?) + 1,
+        "NEG1" => -1, "W64M128" => (1i128 << 64) - 128, "W64P255" => (1i128 << 64) + 255,
+        "E20" => 10i128.pow(20), "NE20" => -(10i128.pow(20)), "W65" => 1i128 << 65,
+        _ => return None,
+    }.to_string())
+}
+
+pub struct Tab { letter: char, eletter: (&'static str, char), mb: (&'static str, char), ff: &'static str, c3: &'static str, lower: bool }
+impl Tab {
+    fn new(seed: u64) -> Self {
+        let mut r = Rng::new(seed ^ 0x7e57);
+        Tab { letter: *r.pick(&LETTERS), eletter: *r.pick(&ELETTERS), mb: *r.pick(&MBS), ff: *r.pick(&BADFF), c3: *r.pick(&BADC3), lower: r.chance(1, 3) }
+    }
+    /// concrete spelling of one segment token as it is written into the request target
+    fn spell(&self, tok: &str) -> Option<String> {
+        let hx = |x: &str| if self.lower { x.to_lowercase() } else { x.to_string() };
+        Some(match tok {
+            "0" | "1" | "7" | "9" | "-" | "+" => tok.to_string(),
+            "L" => self.letter.to_string(),
+            "e0" => "%30".into(), "e7" => "%37".into(), "eL" => self.eletter.0.into(), "sp" => "%20".into(),
+            "mb" => self.mb.0.into(), "sl" => hx("%2F"), "pc" => "%25".into(), "ff" => self.ff.into(), "c3" => self.c3.into(), "bz" => "%GG".into(),
+            _ => return literal(tok),
+        })
+    }
+}
+/// abstract character of a received character ("?" = not an image of any token)
+fn unchar(c: char) -> &'static str {
+    match c {
+        '0' => "0", '1' => "1", '2' => "2", '3' => "3", '4' => "4", '5' => "5", '6' => "6", '7' => "7", '8' => "8", '9' => "9",
+        '-' => "-", '+' => "+", ' ' => " ", '/' => "/", '%' => "%", 'G' => "G", '\u{FFFD}' => "R",
+        c if LETTERS.contains(&c) => "L",
+        c if ELETTERS.iter().any(|e| e.1 == c) => "E",
+        c if MBS.iter().any(|e| e.1 == c) => "U",
+        _ => "?",
+    }
+}
+fn chars_json(t: &str) -> Value { json!(t.chars().map(|c| c.to_string()).collect::<Vec<_>>()) }
+
+struct Vals { a1: &'static str, n1: u32, a2: &'static str, a2enc: &'static str, n2: u32, h1: &'static str, h2: &'static str, t1: &'static str, t2: &'static str, bnd: &'static str }
+fn vals(seed: u64) -> Vals {
+    let mut r = Rng::new(seed ^ 0xa11);
+    let (a2, a2enc) = *r.pick(&[("yz", "yz"), ("w\u{f6}rld", "w%C3%B6rld"), ("B2", "B2")]);
+    Vals { a1: *r.pick(&["x", "hello", "A1"]), n1: *r.pick(&[7u32, 0, 42]), a2, a2enc, n2: *r.pick(&[4294967295u32, 65536, 19]),
+           h1: *r.pick(&["Bearer abc.def", "tok"]), h2: *r.pick(&["Basic dXNlcjpwdw==", "Bearer zz"]),
+           t1: *r.pick(&["hello", "a=x&n=7", "{}"]), t2: *r.pick(&["w\u{f6}rld \u{2713}", "line1\nline2"]), bnd: *r.pick(&["----b0undary", "X", "AaB03x"]) }
+}
+
+/// body / query / cookie text of a payload class in a format
+fn payload(fmt: &str, pl: &str, vs: &Vals, r: &mut Rng, ascii_only: bool) -> Vec<u8> {
+    let (a, aenc, n) = match pl { "v2" => (if ascii_only { "yz" } else { vs.a2 }, if ascii_only { "yz" } else { vs.a2enc }, vs.n2), _ => (vs.a1, vs.a1, vs.n1) };
+    let swap = r.chance(1, 2);
+    let badn = *r.pick(&BADN);
+    match fmt {
+        "JSON" => {
+            let (fa, fnn) = (format!("\"a\":\"{a}\""), format!("\"n\":{n}"));
+            let pair = |x: &str, y: &str| if swap { format!("{{{y},{x}}}") } else if r_ws(n) { format!("{{ {x} , {y} }}") } else { format!("{{{x},{y}}}") };
+            match pl {
+                "v1" | "v2" => pair(&fa, &fnn),
+                "extra" => if swap { format!("{{\"zz\":true,{fa},{fnn}}}") } else { format!("{{{fa},{fnn},\"zz\":[1]}}") },
+                "syntax" => r.pick(&[format!("{{{fa},{fnn}"), format!("{{{fa},,{fnn}}}"), format!("{{{fa},{fnn}}}}}"), format!("{{{fa} {fnn}}}")]).clone(),
+                "wrongtype" => r.pick(&[format!("{{{fa},\"n\":\"{n}\"}}"), format!("{{{fa},\"n\":-1}}"), format!("{{{fa},\"n\":4294967296}}"), format!("{{{fa},\"n\":7.5}}"), format!("{{\"a\":5,{fnn}}}")]).clone(),
+                "missing" => format!("{{{fa}}}"),
+                _ => String::new(),
+            }.into_bytes()
+        }
+        "URLEncoded" | "Query" | "Cookie" => {
+            let sep = if fmt == "Cookie" { "; " } else { "&" };
+            let (fa, fnn) = (format!("a={aenc}"), format!("n={n}"));
+            match pl {
+                "v1" | "v2" => if swap { format!("{fnn}{sep}{fa}") } else { format!("{fa}{sep}{fnn}") },
+                "extra" => if swap { format!("zz=1{sep}{fa}{sep}{fnn}") } else { format!("{fa}{sep}{fnn}{sep}zz=1") },
+                "syntax" => format!("{fa}{sep}n"),
+                "wrongtype" => if swap { format!("n={badn}{sep}{fa}") } else { format!("{fa}{sep}n={badn}") },
+                "missing" => fa,
+                _ => String::new(),
+            }.into_bytes()
+        }
+        "Multipart" => {
+            let b = vs.bnd;
+            let part = |name: &str, val: &str| format!("--{b}\r\nContent-Disposition: form-data; name=\"{name}\"\r\n\r\n{val}\r\n");
+            let (pa, pn) = (part("a", a), part("n", &n.to_string()));
+            match pl {
+                "v1" | "v2" => if swap { format!("{pn}{pa}--{b}--\r\n") } else { format!("{pa}{pn}--{b}--\r\n") },
+                "extra" => format!("{pa}{}{pn}--{b}--\r\n", part("zz", "1")),
+                "syntax" => r.pick(&[format!("garbage without any boundary"), format!("--{b}\r\nContent-Disposition: form-data\r\n\r\nq\r\n--{b}--\r\n")]).clone(),
+                "wrongtype" => format!("{pa}{}--{b}--\r\n", part("n", badn)),
+                "missing" => format!("{pa}--{b}--\r\n"),
+                _ => String::new(),
+            }.into_bytes()
+        }
+        _ /* Text */ => match pl {
+            "v1" => vs.t1.as_bytes().to_vec(),
+            "v2" => vs.t2.as_bytes().to_vec(),
+            "nonutf8" => r.pick(&[vec![0x66u8, 0xFF, 0x6f], vec![0xC3, 0x28], vec![0x61, 0x80]]).clone(),
+            _ => vec![],
+        },
+    }
+}
+const BADN: [&str; 4] = ["abc", "-1", "4294967296", "7x"];
+fn r_ws(n: u32) -> bool { n % 2 == 0 }
+
+fn content_type(mime: &str, var: &str, vs: &Vals, r: &mut Rng) -> Option<String> {
+    let base = match mime { "JSON" => "application/json", "URLEncoded" => "application/x-www-form-urlencoded", "Multipart" => "multipart/form-data",
+                            "Text" => "text/plain", "XML" => *r.pick(&["application/xml", "image/png", "application/octet-stream", "text/html"]), _ => return None };
+    let bnd = if mime == "Multipart" { format!("; boundary={}", vs.bnd) } else { String::new() };
+    Some(match var {
+        "params" => if mime == "Multipart" { format!("{base}; charset=utf-8{bnd}") } else { format!("{base}{}", *r.pick(&["; charset=utf-8", ";charset=UTF-8", "; charset=utf-8; x=y"])) },
+        "case" => format!("{}{bnd}", match mime { "JSON" => "Application/JSON", "URLEncoded" => "Application/X-WWW-Form-Urlencoded", "Multipart" => "Multipart/Form-Data", _ => "Text/Plain" }),
+        _ => format!("{base}{bnd}"),
+    })
+}
+
+// ------------------------------------------------------------------------------------------------ projection of received values
+fn project(g: &Got, vs: &Vals, body: &[u8]) -> (Value, &'static str) {
+    // returns ([value names], kind)
+    let name_an = |a: &str, n: Option<u32>| -> String {
+        let is1 = a == vs.a1; let is2 = a == vs.a2 || a == "yz";
+        match n { Some(n) if is1 && n == vs.n1 => "v1".into(), Some(n) if is2 && n == vs.n2 => "v2".into(),
+                  None if is1 => "v1-n".into(), None if is2 => "v2-n".into(), _ => format!("other:{a}/{n:?}") }
+    };
+    match g {
+        Got::Int(d) => (chars_json(d), "int"),
+        Got::Str(t) => (json!(t.chars().map(unchar).collect::<Vec<_>>()), "str"),
+        Got::AN(a, n) => (json!([name_an(a, Some(*n))]), "val"),
+        Got::AO(a, o) => (json!([name_an(a, *o)]), "val"),
+        Got::AS(a, n) => (json!([match n.parse::<u32>() { Ok(k) if *n == k.to_string() => name_an(a, Some(k)),
+                                   _ if a == vs.a1 && BADN.contains(&n.as_str()) => "v1w".to_string(), _ => format!("other:{a}/{n}") }]), "val"),
+        Got::Text(t) => (json!([if t.as_bytes() == body { "body".to_string() } else { format!("other:{}", util::clip(t, 40)) }]), "val"),
+        Got::Hdr(h) => (json!([if h == vs.h1 { "h1".to_string() } else if h == vs.h2 { "h2".to_string() } else { format!("other:{h}") }]), "val"),
+        Got::Num(n) => (json!([if *n == 5 { "n1".to_string() } else { format!("other:{n}") }]), "val"),
+        Got::Absent => (json!([]), "none"),
+        Got::Present(inner) => (project(inner, vs, body).0, "some"),
+    }
+}
+
+// ------------------------------------------------------------------------------------------------ run
+pub fn run(scn: &Value) -> Value {
+    if usize::BITS != 64 { return json!({"kind": "tool-error", "what": "the spec assumes 64-bit usize/isize"}) }
+    let seed = scn["seed"].as_u64().unwrap_or_else(|| scn["id"].as_u64().unwrap_or(0));
+    let mut r = Rng::new(seed ^ 0xc07);
+    let (tab, vs) = (Tab::new(seed), vals(seed));
+    let tag = tag_of(scn);
+    let route = arr(&scn["route"]);
+    let segs = arr(&scn["segs"]);
+    let rq = &scn["rq"];
+    // ---- request
+    let has_body_item = arr(&scn["items"]).iter().any(|it| matches!(s(&it["x"]), "JSON" | "URLEncoded" | "Multipart" | "Text"));
+    let methods: &[&str] = if has_body_item || s(&rq["body"]["pl"]) != "empty" { &["POST", "PUT", "PATCH", "DELETE", "GET"] } else { &["GET", "HEAD", "POST", "PUT", "PATCH", "DELETE"] };
+    let method = *r.pick(methods);
+    let reg_method = if method == "HEAD" { "GET" } else { method };
+    // ---- route literals and request path
+    let statics: Vec<&str> = { let k = r.below(STATICS.len()); (0..route.len()).map(|i| STATICS[(k + i) % STATICS.len()]).collect() };
+    let (mut lits, mut path, mut sent, mut np) = (vec![], String::new(), vec![], 0usize);
+    for (i, sg) in route.iter().enumerate() {
+        if s(sg) == "P" {
+            lits.push(format!("/:p{}", np + 1));
+            let mut text = String::new(); let mut spelled = vec![];
+            for t in arr(&segs[np]) {
+                let Some(sp) = tab.spell(s(t)) else { return json!({"kind": "tool-error", "what": format!("unknown segment token {t}")}) };
+                spelled.push(chars_json(&sp)); text.push_str(&sp);
+            }
+            if text.is_empty() { return json!({"kind": "tool-error", "what": "empty segment"}) }
+            path.push('/'); path.push_str(&text); sent.push(json!(spelled)); np += 1;
+        } else { lits.push(format!("/{}", statics[i])); path.push('/'); path.push_str(statics[i]); }
+    }
+    let mount = scn["mount"].as_u64().unwrap_or(0) as usize;
+    // ---- application
+    let inner_lit: String = if lits[mount..].is_empty() { "/".into() } else { lits[mount..].concat() };
+    let Some(hs) = build(&tag, v::handler_set(util::leak(inner_lit)), reg_method) else {
+        return json!({"kind": "tool-error", "what": format!("signature {tag} is not in the compiled catalogue")})
+    };
+    let mut app = Ohkami::new(());
+    v::apply_handlers(&mut app, hs);
+    let app = if mount == 0 { app } else {
+        let mut outer = Ohkami::new(());
+        v::apply_by(&mut outer, v::by_another(util::leak(lits[..mount].concat()), app));
+        outer
+    };
+    let router = v::finalize(app);
+    // ---- request bytes
+    let q = s(&rq["q"]);
+    let query = if q == "absent" { None } else if q == "emptyq" { Some(vec![]) } else { Some(payload("Query", q, &vs, &mut r, false)) };
+    let (bfmt, bpl) = (s(&rq["body"]["fmt"]), s(&rq["body"]["pl"]));
+    let body = if bpl == "empty" { vec![] } else { payload(bfmt, bpl, &vs, &mut r, false) };
+    let mut headers: Vec<String> = vec![];
+    if let Some(ct) = content_type(s(&rq["ct"]["mime"]), s(&rq["ct"]["var"]), &vs, &mut r) { headers.push(format!("Content-Type: {ct}")) }
+    match s(&rq["auth"]) { "h1" => headers.push(format!("Authorization: {}", vs.h1)), "h2" => headers.push(format!("Authorization: {}", vs.h2)), _ => {} }
+    match s(&rq["mf"]) { "valid" => headers.push("Max-Forwards: 5".into()), "invalid" => headers.push(format!("Max-Forwards: {}", *r.pick(&["abc", "-1", "5x", "4294967296"]))), _ => {} }
+    let ck = s(&rq["ck"]);
+    if ck != "absent" { headers.push(format!("Cookie: {}", String::from_utf8_lossy(&payload("Cookie", ck, &vs, &mut r, true)))) }
+    if !body.is_empty() || r.chance(1, 2) { headers.push(format!("Content-Length: {}", body.len())) }
+    if headers.len() > 1 { let k = r.below(headers.len()); headers.rotate_left(k) }
+    let mut raw = format!("{method} {path}").into_bytes();
+    if let Some(qs) = &query { raw.push(b'?'); raw.extend_from_slice(qs) }
+    raw.extend_from_slice(b" HTTP/1.1\r\nHost: localhost\r\n");
+    for h in &headers { raw.extend_from_slice(h.as_bytes()); raw.extend_from_slice(b"\r\n") }
+    raw.extend_from_slice(b"\r\n");
+    raw.extend_from_slice(&body);
+    if raw.len() >= 1024 || body.first() == Some(&0) { return json!({"kind": "tool-error", "what": "request outside the agreed envelope"}) }
+    // ---- execute on the real code
+    LOG.with(|l| l.borrow_mut().clear());
+    let (out, how) = util::block_on(async {
+        let mut req = v::VRequest::new();
+        let mut rd: &[u8] = &raw;
+        let (res, how) = match req.read(&mut rd).await {
+            Ok(Some(())) => (req.handle(&router).await, "handled"),
+            Ok(None) => return (Vec::new(), "closed"),
+            Err(e) => (e, "refused-by-parser"),
+        };
+        let mut out = Vec::new();
+        v::send(res, &mut out).await;
+        (out, how)
+    });
+    let p = util::parse_response(&out, method == "HEAD");
+    let log = LOG.with(|l| l.borrow().clone());
+    let vals: Vec<Value> = log.first().map(|g| g.iter().map(|x| { let (v, k) = project(x, &vs, &body); json!({"k": k, "v": v}) }).collect()).unwrap_or_default();
+    json!({"kind": "resp", "status": p.status, "ran": log.len(), "vals": vals, "wf": p.error.is_empty(), "how": how, "sent": sent,
+           "tag": tag, "method": method, "rbody": util::clip(&String::from_utf8_lossy(&p.body), 160), "head": String::from_utf8_lossy(&raw[..raw.len() - body.len()]).to_string(), "body_hex": util::hex(&body)})
+}
+
+// ------------------------------------------------------------------------------------------------ random scenarios (same vocabulary, beyond TLC's bounds)
+fn parse_tag(tag: &str) -> (String, Vec<String>, Vec<Value>) {
+    let mut parts = tag.split('|');
+    let head = parts.next().unwrap();
+    let (style, rest) = head.split_once('(').unwrap();
+    let ptys: Vec<String> = rest.trim_end_matches(')').split(',').filter(|x| !x.is_empty()).map(|x| x.to_string()).collect();
+    let items = parts.map(|p| { let opt = p.starts_with('?'); let p = p.trim_start_matches('?'); let (x, ty) = p.split_once('<').unwrap();
+                                json!({"x": x, "opt": opt, "ty": ty.trim_end_matches('>')}) }).collect();
+    (style.to_string(), ptys, items)
+}
+const LITS: [&str; 34] = ["MAX:u8", "MAX1:u8", "MAX:u16", "MAX1:u16", "MAX:u32", "MAX1:u32", "MAX:u64", "MAX1:u64", "MAX:i8", "MAX1:i8", "MIN:i8", "MIN1:i8",
+    "MAX:i16", "MAX1:i16", "MIN:i16", "MIN1:i16", "MAX:i32", "MAX1:i32", "MIN:i32", "MIN1:i32", "MAX:i64", "MAX1:i64", "MIN:i64", "MIN1:i64",
+    "P2W1:8", "P2W1:16", "P2W1:32", "P2W1:64", "NEG1", "W64M128", "W64P255", "E20", "NE20", "W65"];
+fn rand_seg(r: &mut Rng, int: bool) -> Vec<&'static str> {
+    let digits = ["0", "1", "7", "9"];
+    let mut out: Vec<&'static str> = vec![];
+    match r.below(if int { 7 } else { 9 }) {
+        0 => { for _ in 0..r.range(1, 22) { out.push(*r.pick(&digits)) } }                                         // long digit strings (up to 22 digits)
+        1 => { out.push(*r.pick(&["-", "+"])); for _ in 0..r.range(0, 20) { out.push(*r.pick(&digits)) } }          // signed
+        2 => { if r.chance(1, 3) { out.push(*r.pick(&["-", "+", "0"])) } out.push(*r.pick(&LITS)); if r.chance(1, 3) { out.push(*r.pick(&["L", "0", "sp", "e0", "7"])) } }
+        3 => { for _ in 0..r.range(1, 6) { out.push(*r.pick(&digits)) } out.push(*r.pick(&["L", "sp", "eL", "-", "+", "mb", "sl", "pc", "bz"])); for _ in 0..r.below(3) { out.push(*r.pick(&digits)) } }
+        4 => { for _ in 0..r.range(1, 8) { out.push(*r.pick(&["0", "e0", "e7", "7", "1"])) } }                      // escaped digits, leading zeros
+        5 => { out.push(*r.pick(&["L", "sp", "eL", "ff", "c3"])); for _ in 0..r.below(4) { out.push(*r.pick(&digits)) } }
+        6 => { for _ in 0..r.range(1, 10) { out.push(*r.pick(&["0", "1", "7", "9", "-", "+", "L", "sp", "e0", "e7", "eL"])) } }
+        _ => { for _ in 0..r.range(1, 12) { out.push(*r.pick(&["L", "7", "-", "+", "eL", "sp", "mb", "sl", "pc", "ff", "c3", "bz", "L", "L", "mb"])) } }
+    }
+    out
+}
+pub fn gen(rng: &mut Rng, idx: usize) -> Value {
+    let tag = TAGS[rng.below(TAGS.len())];
+    let (style, ptys, items) = parse_tag(tag);
+    let k = ptys.len();
+    // route with n >= k params (sometimes more than declared), statics sprinkled in
+    let n = if k == 2 { 2 } else if rng.chance(1, 5) { (k + 1).min(2) } else { k };
+    let mut route: Vec<&str> = vec![];
+    if n == 0 || rng.chance(1, 2) { route.push("S") }
+    for i in 0..n { route.push("P"); if i + 1 < n && rng.chance(1, 2) { route.push("S") } }
+    if n > 0 && rng.chance(1, 3) { route.push("S") }
+    let mount = if route.len() > 1 && rng.chance(1, 3) { rng.range(1, route.len() - 1) } else { 0 };
+    let segs: Vec<Vec<&str>> = (0..n).map(|i| {
+        let int = ptys.get(i).map(|t| !matches!(t.as_str(), "String" | "Cow" | "str")).unwrap_or(rng.chance(1, 2));
+        // with extractors present keep most segments valid so that the decision table is reached
+        if !items.is_empty() && rng.chance(2, 3) { if int { vec!["7"] } else { vec!["L", "eL"] } } else { rand_seg(rng, int) }
+    }).collect();
+    let xs: Vec<&str> = items.iter().map(|it| s(&it["x"])).collect();
+    let spl = ["v1", "v2", "extra", "syntax", "wrongtype", "missing"];
+    let q = if xs.contains(&"Query") || rng.chance(1, 4) { if rng.chance(1, 5) { *rng.pick(&["absent", "absent", "emptyq"]) } else { *rng.pick(&spl) } } else { "absent" };
+    let bodyx: Vec<&str> = xs.iter().copied().filter(|x| matches!(*x, "JSON" | "URLEncoded" | "Multipart" | "Text")).collect();
+    let fmts = ["JSON", "URLEncoded", "Multipart", "Text"];
+    let mime = if bodyx.is_empty() { if rng.chance(1, 4) { *rng.pick(&fmts) } else { "none" } }
+               else { match rng.below(10) { 0 => "none", 1 => "XML", 2 => *rng.pick(&fmts), _ => *rng.pick(&bodyx) } };
+    let var = if mime == "none" || mime == "XML" { "exact" } else { match rng.below(8) { 0 => "case", 1 | 2 | 3 => "params", _ => "exact" } };
+    // the body is written in the announced format, or in a declared one; mismatching bytes only as the plain valid payload
+    let fmt = if fmts.contains(&mime) && rng.chance(5, 6) { mime } else if !bodyx.is_empty() { *rng.pick(&bodyx) } else { "JSON" };
+    let mismatch = fmts.contains(&mime) && fmt != mime;
+    let pl = if rng.chance(1, 8) { "empty" } else if var == "case" || mismatch { "v1" }
+             else if fmt == "Text" { *rng.pick(&["v1", "v2", "nonutf8"]) } else { *rng.pick(&spl) };
+    // a multipart parser is only handed multipart bytes or the JSON payload (other mismatches are C08's business)
+    let (fmt, pl) = if mismatch && mime != "Text" && !(fmt == "JSON" || (mime == "JSON" && fmt != "Multipart")) { (mime, "v1") } else { (fmt, pl) };
+    let auth = if xs.contains(&"Auth") || rng.chance(1, 5) { *rng.pick(&["absent", "h1", "h2"]) } else { "absent" };
+    let mf = if xs.contains(&"MaxFwd") || rng.chance(1, 6) { *rng.pick(&["absent", "valid", "invalid"]) } else { "absent" };
+    let ck = if xs.contains(&"Cookie") || rng.chance(1, 6) { *rng.pick(&["absent", "v1", "v2", "wrongtype", "missing"]) } else { "absent" };
+    let fam = if !items.is_empty() { "item" } else if n >= 2 || k < n || mount > 0 { "bind" } else if k == 1 && matches!(ptys[0].as_str(), "String" | "Cow" | "str") { "str" } else if k == 1 { "int" } else { "bind" };
+    json!({"id": idx, "fam": fam, "route": route, "mount": mount, "style": style, "ptys": ptys, "items": items, "segs": segs,
+           "rq": {"q": q, "ct": {"mime": mime, "var": var}, "body": {"fmt": fmt, "pl": pl}, "auth": auth, "mf": mf, "ck": ck},
+           "seed": rng.next() % 1_000_000})
+}
